@@ -96,7 +96,13 @@ ValidateRaw(d, T) ==
      ELSE IF ~bl.found \/ bl.val = <<>> \/ ~AtoiOk(bl.val) THEN [res |-> "error", oob |-> FALSE]
      ELSE LET offset == fieldLen(T.bs, bs) + 1 + fieldLen(T.bl, bl) + 1
               length == (Len(d) - offset) - (fieldLen(T.cs, cs) + 1)
+              fieldOf(tag, r) == IF r.found /\ r.val # <<>> THEN tag \o <<EQ>> \o r.val ELSE <<>>
+              head == fieldOf(T.bs, bs) \o <<SOH>> \o fieldOf(T.bl, bl) \o <<SOH>>
+              tail == <<SOH>> \o fieldOf(T.cs, cs) \o <<SOH>>
+              HasSuffix(s, x) == Len(s) >= Len(x) /\ SubSeq(s, Len(s) - Len(x) + 1, Len(s)) = x
           IN IF length # Atoi(bl.val) THEN [res |-> "error", oob |-> FALSE]
+             \* (fix "positional framing"): the framing fields are the first two and the last field
+             ELSE IF ~HasPrefix(d, head) \/ ~HasSuffix(d, tail) THEN [res |-> "error", oob |-> FALSE]
              ELSE IF ~SliceOk(d, 0, offset + length - 1) THEN [res |-> "error", oob |-> TRUE]
              ELSE LET pre == Slice(d, 0, offset + length - 1)
                       sum == (SumTo(pre, Len(pre)) + 1) % 256
